@@ -6,6 +6,7 @@ C11 — lock_all_entries yields each live entry of the snapshot exactly once.
 import Lockable.Proofs.Snap
 import Lockable.Proofs.Stream
 import Lockable.Proofs.Stream2
+import Lockable.Proofs.Usable
 import Lockable.Props.C01
 namespace Lockable
 
@@ -281,5 +282,35 @@ theorem C11_item_key_counted (kind : Kind) (cs : List Call) (sid : Nat) (st : St
     intro e; rw [e] at this; simp at this
   · have hw' : a.s.wedged = false := hi.inv.notWedged
     unfold keys; rw [hw']; rfl
+
+/-- **Other keys and the counting calls stay usable while items are pending** — as one statement, for every state reachable by
+any sequence of API calls (so with any number of streams open, items unpolled, queued or ready, suspended calls, waiters): a plain
+`try_lock` call on *any* key `k` returns a guard **exactly when** `k` itself is free in the atomic specification (no guard for `k`, nobody
+queued on `k`) — nothing pending on other keys enters; an item of a stream queued on `k` itself counts as a waiter, as on the code —
+and `num_entries_or_locked`/`keys_with_entries_or_locked` answer from the map (never "poisoned", never blocked) and change nothing.
+(Blocking/async plain locks: `enqueue_iff_free`; the scheduled interpreter runs them as the same core actions.) -/
+theorem C11_other_keys_usable (kind : Kind) (cs : List Call) (h k h0 : Nat) :
+    let a := cs.foldl (fun a c => (a.exec c).1) (Api.init kind)
+    a.s.hs h = none →
+    ((a.exec (.lock .try h k .none h0)).2.res.isGuard = true ↔ (absSpec a.s).free k = true) ∧
+    (match (a.exec .count).2.res with | .out (.nat n) => n = a.s.order.length | _ => False) ∧
+    (match (a.exec .keys).2.res with | .out (.list l) => l = a.s.order | _ => False) ∧
+    (a.exec .count).1 = a ∧ (a.exec .keys).1 = a := by
+  intro a hf
+  have hi := (C11_bookkeeping_exact kind cs).inv
+  exact ⟨lock_try_plain a hi h k h0 hf, count_keys_plain a hi⟩
+
+/-- non-vacuity: with the stream's item 200 queued behind guard 1 on key 1 (stream answered `Pending`), a try on key 2 and on the
+absent key 3 gets a guard, a try on key 1 does not, and the count is 2 -/
+example :
+    let a0 : Api := Api.init .lru
+    let a1 := (((a0.exec (.lock .wait 1 1 .none 100)).1.exec (.op 1 (.insert 10))).1.exec (.lock .wait 2 2 .none 100)).1
+    let a2 := (((a1.exec (.op 2 (.insert 20))).1.exec (.drop 2)).1.exec (.lockAll 1 200)).1
+    let a3 := ((a2.exec (.spoll 1)).1.exec (.drop 201)).1
+    let a4 := (a3.exec (.spoll 1)).1
+    (a4.streams.map fun p => (p.2.items, p.2.ready)) = [([200], [])] ∧
+    (a4.exec (.lock .try 300 2 .none 400)).2.res.isGuard = true ∧ (a4.exec (.lock .try 300 3 .none 400)).2.res.isGuard = true ∧
+    (a4.exec (.lock .try 300 1 .none 400)).2.res.isGuard = false ∧
+    (match (a4.exec .count).2.res with | .out (.nat n) => n | _ => 0) = 2 := by decide
 
 end Lockable
